@@ -69,7 +69,7 @@ impl Scenario for C18 {
     fn meta(&self) -> Meta {
         Meta {
             level: "exploration",
-            rule: "run = one block with n zero-fee payments placed in a chosen order, of which the pattern's positions pay the light client's key (plus optionally a golden ticket and fee transaction, and 0-2 extra keys in the client's key list touching random positions); the first runs enumerate every (n, pattern) for n = 0..6 (quick) / 0..8 (thorough), then random n <= 24/40 with touch density 10-90%. A real full node is preloaded with the chain. Projection oracle on what the fetch route serves (file -> deserialize -> generate -> generate_lite_block(key list) -> serialize): id, hash, creator, signature, previous hash, merkle root and every other header field equal the full block's; every transaction touching a listed key is present unmodified; after the wire (deserialize + generate) the hash is unchanged; the merkle root recomputed from the lite block's own transactions equals the header's, before and after the wire. In a fraction of the runs a real SPV node (spv mode, static peer) performs the real handshake, ghost-chain request and lite-block fetch and must end up storing the block under the advertised hash. distinct_nontrivial = distinct (n, pattern, key-list size) served as a lite block.",
+            rule: "run = one block with n zero-fee payments placed in a chosen order, of which the pattern's positions pay the light client's key (plus optionally a golden ticket and fee transaction, and 0-2 extra keys in the client's key list touching random positions); the first runs enumerate every (n, pattern) for n = 0..6 (quick) / 0..8 (thorough), then random n <= 24/40 with touch density 10-90%. A real full node is preloaded with the chain. Projection oracle on what the fetch route serves (file -> deserialize -> generate -> generate_lite_block(key list) -> serialize): id, hash, creator, signature, previous hash, merkle root and every other header field equal the full block's; every transaction touching a listed key is present unmodified; after the wire (deserialize + generate) the hash is unchanged; the merkle root recomputed from the lite block's own transactions equals the header's, before and after the wire; the projection of the same block after its transactions were pruned from memory keeps the signed header bytes and the hash. In a fraction of the runs a real SPV node (spv mode, static peer) performs the real handshake, ghost-chain request and lite-block fetch and must end up storing the block under the advertised hash. distinct_nontrivial = distinct (n, pattern, key-list size) served as a lite block.",
             real: &["Block::generate_lite_block", "MerkleTree::generate", "Transaction::generate_hash_for_signature (SPV)", "Block::serialize_for_net/deserialize_from_net/generate", "RoutingThread ghost-chain request/processing", "VerificationThread::verify_block", "ConsensusThread (spv)"],
             stubs: &["fetch route re-implemented with the same core calls as saito-rust/src/network_controller.rs", "SimNet", "universe builder"],
             assumptions: &["the quantifier over all blocks/key lists is sampled beyond the enumerated prefix", "fees are zero so that transaction order does not influence consensus values"],
@@ -233,6 +233,25 @@ impl Scenario for C18 {
                     "C18|header-differs|synthetic-nonzero-header",
                     format!("with every signed header field non-zero the lite block's signed header bytes differ from the full block's (n {}, pattern {:?})", plan.n, plan.pattern),
                 );
+            }
+        }
+        // the projection of a block that no longer holds its transactions in memory (below the prune depth a
+        // node keeps the header only; the API offers the projection on whatever block object it is handed):
+        // nothing can be carried, but the header, and with it the hash the client computes, stays the block's
+        if !full.transactions.is_empty() {
+            let mut pb = full.clone();
+            let _ = block_on(pb.downgrade_block_to_block_type(BlockType::Pruned, false));
+            let l3 = pb.generate_lite_block(keylist.clone());
+            r.fault("lite_block_of_pruned_block", 1);
+            if l3.serialize_for_signature() != full.serialize_for_signature() {
+                r.violate(
+                    "C18|header-differs|body-less-source",
+                    format!("the lite form of a block whose transactions were pruned from memory has other signed header bytes than the block (merkle root {} vs {})", crate::util::hex8(&l3.merkle_root), crate::util::hex8(&full.merkle_root)),
+                );
+            } else if let Ok(mut w3) = Block::deserialize_from_net(&l3.serialize_for_net(BlockType::Full)) {
+                if w3.generate().is_ok() && w3.hash != full.hash {
+                    r.violate("C18|wire|hash-changed|body-less-source", "hash of the lite form of a pruned block differs from the block's after the wire".to_string());
+                }
             }
         }
         // every touching transaction present unmodified
